@@ -21,7 +21,7 @@ REQUIRED_REACH = ['grad:watch', 'grad:grad', 'grad:grad_list', '_tt_base:TT.norm
                   '_extras:pad', '_extras:diag', '_tt_base:TT.mprod', '_tt_base:TT.__matmul__', '_tt_base:TT.sum', '_extras:kron', '_tt_base:TT.full']
 REQUIRED_COUNTS = {'api:grad.grad': 1, 'api:grad.grad_list': 1, 'api:autograd.grad': 1, 'gradients_compared': 300, 'fd_crosschecks': 100}
 LINE_FUNCS = ['grad', 'grad_list', 'watch']
-T_OPS = ['add', 'sub', 'mul', 'smul', 'rsmul', 'sadd', 'rsub', 'sdiv', 'neg', 'matvec', 'vecmat', 'mprod', 'padslice', 'catslice', 'bcastmul', 'pos']
+T_OPS = ['add', 'sub', 'mul', 'smul', 'rsmul', 'sadd', 'rsub', 'sdiv', 'neg', 'matvec', 'vecmat', 'mprod', 'padslice', 'catslice', 'bcastmul', 'pos', 'tsadd', 'tsradd', 'tssub', 'tsmul', 'tsdiv']
 S_OPS = ['sum', 'sumk', 'dot', 'dotk', 'norm', 'norm2', 'bilinear', 'fullw', 'mask', 'item', 'slicesum', 'kronw', 'diagbil', 'opfull', 'optfull', 'opmatmul', 'diagop', 'noneslice']
 
 
@@ -35,6 +35,11 @@ def gen_T(rng, depth, d):
         return [op, gen_T(rng, depth - 1, d), rng.choice([2.0, -0.5, 1.5, 3])]
     if op == 'mprod':
         return [op, gen_T(rng, depth - 1, d), rng.randrange(d)]
+    if op in ('tsadd', 'tsradd', 'tssub', 'tsmul', 'tsdiv'):
+        # TT combined with a scalar that itself depends on tracked cores (a 0-d tensor inside the autograd graph)
+        sk = rng.choice(['sum', 'norm2', 'dot'])
+        sn = [sk, gen_T(rng, 0, d)] if sk != 'dot' else [sk, gen_T(rng, 0, d), gen_T(rng, 0, d)]
+        return [op, gen_T(rng, depth - 1, d), sn]
     if op == 'catslice':
         return [op, gen_T(rng, depth - 1, d), gen_T(rng, depth - 1, d), rng.randrange(d)]
     return [op, gen_T(rng, depth - 1, d)]
@@ -128,6 +133,16 @@ def eval_tt(node, E):
         return r + T(1)
     if op == 'bcastmul':
         return T(1) * E.tt_v
+    if op == 'tsadd':
+        return T(1) + eval_tt(node[2], E)
+    if op == 'tsradd':
+        return eval_tt(node[2], E) + T(1)
+    if op == 'tssub':
+        return T(1) - eval_tt(node[2], E)
+    if op == 'tsmul':
+        return T(1) * (eval_tt(node[2], E) * 0.1 + 1.5)
+    if op == 'tsdiv':
+        return T(1) / (eval_tt(node[2], E) ** 2 + 2.0)
     # scalars
     if op == 'sum':
         return T(1).sum()
@@ -219,6 +234,14 @@ def eval_dense(node, E):
         return T(2) + T(1)
     if op == 'bcastmul':
         return T(1) * E.dn_v
+    if op in ('tsadd', 'tsradd'):
+        return T(1) + eval_dense(node[2], E)
+    if op == 'tssub':
+        return T(1) - eval_dense(node[2], E)
+    if op == 'tsmul':
+        return T(1) * (eval_dense(node[2], E) * 0.1 + 1.5)
+    if op == 'tsdiv':
+        return T(1) / (eval_dense(node[2], E) ** 2 + 2.0)
     if op == 'sum':
         return T(1).sum()
     if op == 'sumk':
